@@ -218,7 +218,7 @@ def register(reg, stubs, world):
             ('enforcer-invariant', store_inv(eng, st, s)),
             ('enforcer-configuration', conf_ok(eng, st, s)),
             ('rule-is-a-name-or-an-evaluable-check', z3.Or(V.is_str(rule), z3.And(
-                eng.isinst(rule, 'BaseCheck'), wf_eval(rule, s),
+                eng.isinst(rule, 'BaseCheck'), wf_eval(rule, s), wf_tree(rule),
                 z3.Or(sc == ABSENT, sc == NONE, str_list(eng, st, sc, 'rs'))))),
             ('target-is-a-dict', z3.And(z3.Or(V.is_dict(t), z3.And(V.is_obj(t), clsof(V.ref(t)) == eng.cid('dict'),
                                                                   V.is_dict(eng.val(st, t)))),
@@ -246,7 +246,7 @@ def register(reg, stubs, world):
     def enforce_axioms(cx):
         eng = cx.eng
         x, k, v = z3.Const('ja!x', MapSV), z3.String('ja!k'), z3.Const('ja!v', V)
-        return eval_axioms(eng, cx.st0) + json_axioms(eng, cx['creds']) + [
+        return json_axioms(eng, cx['creds']) + [
             # jsonlike is closed under storing a jsonlike value (trusted fact about the value model)
             qforall([x, k, v], z3.Implies(z3.And(jsonlike(V.dict(x)), jsonlike(v)), jsonlike(V.dict(z3.Store(x, k, v)))),
                     patterns=[jsonlike(V.dict(z3.Store(x, k, v)))])]
@@ -266,6 +266,9 @@ def register(reg, stubs, world):
         valid_ctx = z3.Or(is_ctx, is_map)
         M = norm_map(eng, st0, c)
         is_chk = eng.isinst(rule, 'BaseCheck')
+        kc = eng.known(s1, is_chk)
+        if kc is None and eng.known(s1, V.is_str(rule)) is True:
+            kc = False
         R1 = eng.get(s1, s, 'rules')
         found, looked = lookup(eng, s1, R1, rule)
         nonempty = truthy(eng.val(s1, R1))
@@ -274,19 +277,21 @@ def register(reg, stubs, world):
         sc_rule = z3.Select(st0.H('scope_types'), V.ref(rule))
         sc_reg = z3.Select(s1.H('scope_types'), V.ref(regd))
         # whose scope types gate the request: the check object's own, or the registered default's
-        gated = z3.If(is_chk, z3.And(sc_rule != ABSENT, truthy_list(eng, st0, sc_rule)),
-                      z3.And(nonempty, found, regd != ABSENT, truthy_list(eng, s1, sc_reg)))
-        scopes = z3.If(is_chk, sc_rule, sc_reg)
+        g_chk = z3.And(sc_rule != ABSENT, truthy_list(eng, st0, sc_rule))
+        g_name = z3.And(nonempty, found, regd != ABSENT, truthy_list(eng, s1, sc_reg))
+        gated = g_chk if kc is True else (g_name if kc is False else z3.If(is_chk, g_chk, g_name))
+        scopes = sc_rule if kc is True else (sc_reg if kc is False else z3.If(is_chk, sc_rule, sc_reg))
         inscope = in_list(eng, s1, scopes, scope_of(M))
         enf = truthy(eng.get(st0, conf_group(eng, st0, s), 'enforce_scope'))
         gate_denies = z3.And(gated, z3.Not(inscope), enf)
-        evaluable = z3.Or(is_chk, z3.And(nonempty, found))
-        chk = z3.If(is_chk, rule, looked)
-        cur = z3.If(is_chk, NONE, rule)
+        evaluable = z3.BoolVal(True) if kc is True else (z3.And(nonempty, found) if kc is False else z3.Or(is_chk, z3.And(nonempty, found)))
+        chk = rule if kc is True else (looked if kc is False else z3.If(is_chk, rule, looked))
+        cur = NONE if kc is True else (rule if kc is False else z3.If(is_chk, NONE, rule))
         if gates:
             g = gates[0]
             P.append(('gate-uses-the-registered-or-own-scope-types-and-normalised-creds', z3.And(
-                gated, g['args']['rule'] == z3.If(is_chk, rule, regd), g['args']['do_raise'] == dr,
+                gated, g['args']['rule'] == (rule if kc is True else (regd if kc is False else z3.If(is_chk, rule, regd))),
+                g['args']['do_raise'] == dr,
                 V.m(g['vals']['creds']) == M)))
         if evals:
             e = evals[0]
@@ -342,9 +347,11 @@ def register(reg, stubs, world):
         is_ctx = z3.And(V.is_obj(c), clsof(V.ref(c)) == eng.cid('context.RequestContext'))
         is_map = z3.And(V.is_obj(c), z3.Or(clsof(V.ref(c)) == eng.cid('dict'), clsof(V.ref(c)) == eng.cid('$PolicyValues')))
         name = V.is_str(rule)
-        return [z3.And(is_ctx, name), z3.And(is_ctx, z3.Not(name)), z3.And(is_map, name), z3.And(is_map, z3.Not(name)),
+        chk = eng.isinst(rule, 'BaseCheck')
+        return [z3.And(is_ctx, name), z3.And(is_ctx, chk), z3.And(is_map, name), z3.And(is_map, chk),
                 z3.Not(z3.Or(is_ctx, is_map))]
     reg.add(Contract('policy:Enforcer.enforce', pre=enforce_pre, post=enforce_post, axioms=enforce_axioms,
+                     heap_axioms=lambda eng, st: eval_axioms(eng, st) + tree_axioms(eng, st),
                      cases=enforce_cases, ncases=5,
                      tracks=('policy:Enforcer.load_rules', '_checks:_check', 'policy:Enforcer._enforce_scope'),
                      raises=('InvalidContextObject', 'InvalidScope', 'PolicyNotAuthorized', '$CallerException') + EVAL_RAISES,
